@@ -29,7 +29,7 @@ print("| id | level | quick (evidence/<id>.json) |" + (" thorough |" if thorough
 print("|---|---|---|" + ("---|" if thorough_dir else ""))
 for ch in man["checks"]:
     pid = ch["property_id"]
-    row = "| %s | %s | %s |" % (pid, ch["level"], cov(os.path.join(root, "evidence", pid + ".json")))
+    row = "| %s | %s | %s |" % (pid, ch["level_claimed"]["category"], cov(os.path.join(root, "evidence", pid + ".json")))
     if thorough_dir:
         row += " %s |" % cov(os.path.join(thorough_dir, pid + ".json"))
     print(row)
